@@ -1,9 +1,9 @@
 package props
 
 import (
-	"strconv"
 	"fmt"
 	"math/big"
+	"strconv"
 	"strings"
 	"time"
 
@@ -267,7 +267,7 @@ func init() {
 
 func C18(r *eng.Run) {
 	r.Rule = "shortcut ladder: y in {0, +-1, +-0.5 in every cohort, non-negative integers 0..40, 10^j, odd/even/huge integers, non-integers} x x in {powers of ten for every k, coefficient shapes, values of both signs}: exact results demanded (1, x, the mode-rounded reciprocal, exact powers of ten, Inf/zero beyond the range, NaN for negative base with non-integer exponent, sign (-1)^y); " +
-		"general path: bases near 1 (1+-j*10^-k, k=1..34), every two-digit leading pair, shapes, bases near powers of ten x exponents {integers, half-integers, 34-digit fractions, huge, tiny, both signs} and exponents chosen so the exact power lands at the overflow/underflow thresholds +- a few ulps; all 6 modes; " +
+		"general path: bases near 1 (1+-j*10^-k, k=1..34), every two-digit leading pair, shapes, bases near powers of ten x exponents {integers, half-integers, 34-digit fractions, huge, tiny, both signs} and exponents chosen so the exact power lands at the overflow/underflow thresholds +- a few ulps; bases at both ends and in the middle of every slot of the two-digit logarithm table (finer inside the slots 10 and 95..99) at several magnitudes x exponents that are fixed fractions of the threshold exponent (the amplified logarithm error is largest there); all 6 modes; " +
 		"oracle: exp(y ln|x|) on big.Float at two precisions, tolerance = one ulp at the true result + |t||y|(4e-37|ln|x|| + 1e-55), verdicts only when they hold across the enclosure; Pow == PowWithMode under every DefaultRoundingMode. Non-trivial = shortcuts, range ends, NaN/sign cases."
 	r.Assumptions = []string{"binary codec is the identity on bits (checked at start; decided by C12)", "beyond the range both the stated Inf/zero and the mode-rounded extreme (largest finite / smallest subnormal) are accepted",
 		"oracle bound to the repository's Pow vectors (simple.txt) on every run"}
